@@ -8,12 +8,14 @@ import zoo, flowcheck as fc
 from . import register
 import findings
 
-def tlc_ids(big, foldat):
-    cfg = "CONSTANT FoldAt = %d\nBig = %s\nSPECIFICATION Spec\n" % (foldat, "TRUE" if big else "FALSE")
+def tlc_ids(big, foldat, weak=()):
+    cfg = "CONSTANT FoldAt = %d\nBig = %s\nWeak = {%s}\nSPECIFICATION Spec\n" % (foldat, "TRUE" if big else "FALSE", ",".join('"%s"' % w for w in weak))
     r = run_tlc("TempDir", "t.cfg", cfgtext=cfg, workers=4, timeout=1200, heap="6g")
     m = re.search(r'^"IDS (.*)"$', r.out, re.M)
     ids = json.loads(json.loads('"' + m.group(1) + '"')) if m else None
     n = re.search(r'NCOLLISIONS (\d+)', r.out)
+    sp = re.search(r'NSAMEPIECES (\d+)', r.out)
+    r.samepieces = int(sp.group(1)) if sp else None
     return r, ids, int(n.group(1)) if n else None
 
 def call_probe(reqs):
@@ -24,7 +26,8 @@ def call_probe(reqs):
 def req_of(i):
     ins = {"x": i["x"]}
     if i["y"]: ins["y"] = i["y"]
-    return dict(op="tempdir", name=i["name"], ins=ins, params=({} if i["k"] == "-" else {"k": i["k"]}), tags=({} if i["t"] == "-" else {"x.g": i["t"]}))
+    params = {} if i["k"] == "-" else ({"k": "1", "K": "2"} if i["k"] == "kK" else {"k": i["k"]})
+    return dict(op="tempdir", name=i["name"], ins=ins, params=params, tags=({} if i["t"] == "-" else {"x.g": i["t"]}))
 
 @register("C14")
 def check_C14(tier):
@@ -38,6 +41,11 @@ def check_C14(tier):
     rng = random.Random(seed() * 41 + 14)
     r1, _, _ = tlc_ids(False, 15)          # folding reached by the small names: length bound of the transcription
     r2, ids, ncoll = tlc_ids(thorough, 214)
+    r3, _, ncoll_old = tlc_ids(thorough, 214, weak=["OldSplit"])     # the split function before the fix of F17 must show additional collisions
+    if not (ncoll_old and ncoll is not None and ncoll_old > ncoll):
+        chk.undecided.append("TempDir.tla: the weakened split (F17) shows no additional collisions (%s vs %s) - identity space too small?" % (ncoll_old, ncoll))
+    else:
+        chk.extra["weak_variants_refuted"] = ["OldSplit -> %d colliding pairs instead of %d" % (ncoll_old, ncoll)]
     for r in (r1, r2):
         if r.error or "Assumption" in r.out and "is false" in r.out:
             chk.undecided.append("TempDir.tla: %s" % (r.error or "an assumption of the transcription is false")[-300:])
